@@ -139,7 +139,8 @@ PROPS["C08"] = {
     "level_note": "Partial proof: the path-description algorithm (sizes/path_resolver.go) is not modelled in Lean; git itself is the judge of descriptions (as the property states), on generated repositories only.",
     "technique": "Lean 4 proof (witness invariant over the regenerated record function) + end-to-end exploration with git rev-parse as oracle",
     "modules": ["GitSizer.Props.C08"],
-    "engines": [{"name": "e2e", "quick": 320, "thorough": 16000, "per_shard": 20}, {"name": "graph", "quick": 3000, "thorough": 200000, "per_shard": 1500}],
+    "engines": [{"name": "e2e", "quick": 480, "thorough": 16000, "per_shard": 20}, {"name": "graph", "quick": 3000, "thorough": 200000, "per_shard": 1500},
+                {"name": "paths", "quick": 8000, "thorough": 800000, "per_shard": 2000}, {"name": "revspec", "quick": 240, "thorough": 12000, "per_shard": 20}],
     "rule": _E2E_RULE,
     "assumptions": ["git rev-parse is the reference for what a description denotes"],
 }
